@@ -145,7 +145,7 @@ func genC11(t *rapid.T) c11Case {
 				}
 			}
 			if len(vals) >= 2 && rapid.IntRange(0, 3).Draw(t, "totransfer") == 0 {
-				s.Kind, s.Amt, s.Forge = "transfer", rapid.SampledFrom([]string{"1", "1000000000000000000", "7000000000000000000"}).Draw(t, "tamt"), ""
+				s.Kind, s.Amt, s.Forge = "transfer", rapid.SampledFrom([]string{"1", "1000000000000000000", "7000000000000000000", "sendmax", "sendmax"}).Draw(t, "tamt"), ""
 			}
 		}
 		needs := s.Kind == "undelegate" || s.Kind == "redelegate" || s.Kind == "withdraw" || (s.Kind == "msg" && s.Action != "Delegate") || s.Kind == "msgwithdraw" ||
@@ -303,12 +303,37 @@ func c11Delegated(c *chain.Chain, ctx sdk.Context, del common.Address, val int) 
 	return v.TokensFromShares(d.Shares).TruncateInt().BigInt()
 }
 
+var minWithdraw = new(big.Int).Exp(big.NewInt(10), big.NewInt(15), nil) // one thousandth of a whole coin (18 decimals)
+
 func c11Amount(c *chain.Chain, ctx sdk.Context, st c11Step, del common.Address) *big.Int {
 	switch st.Amt {
 	case "all":
 		return c11Delegated(c, ctx, del, st.Val)
 	case "over":
 		return new(big.Int).Add(c11Delegated(c, ctx, del, st.Val), big.NewInt(1))
+	case "sendmax":
+		// more than the liquid balance, affordable only once the pending rewards have been paid out (a wallet's "send max":
+		// what the precompile's balanceOf reports): liquid balance, less the most the tx can cost its sender, plus half of
+		// the pending rewards
+		liquid := c.App.BankKeeper.GetBalance(ctx, del.Bytes(), chain.Denom).Amount.BigInt()
+		if st.Route == "" && st.Kind != "multicall" {
+			price, _ := new(big.Int).SetString(c11Prices[st.Price%len(c11Prices)], 10)
+			liquid.Sub(liquid, new(big.Int).Mul(price, big.NewInt(c11Gas)))
+		}
+		if liquid.Sign() < 0 {
+			liquid = new(big.Int)
+		}
+		cctx, _ := ctx.CacheContext()
+		rewards := new(big.Int)
+		if r, err := distrkeeper.NewQuerier(c.App.DistrKeeper).DelegationTotalRewards(cctx, &distrtypes.QueryDelegationTotalRewardsRequest{DelegatorAddress: sdk.AccAddress(del.Bytes()).String()}); err == nil {
+			// only what a withdrawal really pays out: per validator, rewards that reach the precompile's dust threshold
+			for _, dr := range r.Rewards {
+				if x := dr.Reward.AmountOf(chain.Denom).TruncateInt().BigInt(); x.Cmp(minWithdraw) >= 0 {
+					rewards.Add(rewards, x)
+				}
+			}
+		}
+		return liquid.Add(liquid, rewards.Rsh(rewards, 1))
 	}
 	v, _ := new(big.Int).SetString(st.Amt, 10)
 	return v
@@ -420,7 +445,6 @@ func runC11(cs c11Case) *Outcome {
 	}
 	o.label("mode:" + cs.Mode)
 	takeA := c11Take(a)
-	minWithdraw := new(big.Int).Exp(big.NewInt(10), big.NewInt(15), nil) // one thousandth of a whole coin (18 decimals)
 	stateChanging := 0
 	special := false
 
